@@ -118,6 +118,8 @@ def sched_parts(pid: str, tier: str):
         mons = ("C08",)
         mk("whole-run-N3", Cfg(N=3, resources="tma", sym_prio=True, routes="dact", monitors=mons), base_req, 600)
         mk("whole-run-N4-threads", Cfg(N=4, resources="t", sym_prio=True, monitors=mons), base_req, 600, 10)
+        # a descendant reached along two paths below a node that competes with two independent nodes
+        mk("whole-run-N5-reconverging", Cfg(N=5, resources="t", sym_prio=True, fixed_shapes=(((), (), (), (2,), (2, 3)),), monitors=mons), base_req, 600, 8)
         # the AsyncDAG flavour: same scheduler, but the limit reaches it through another constructor
         mk("whole-run-N3-async-flavour", Cfg(N=3, resources="ta", flavours="a", routes="da", monitors=mons), base_req, 600)
         if not q:
@@ -153,8 +155,33 @@ def sched_parts(pid: str, tier: str):
                           "choices": "which suspended coroutine resumes, which futures finish", "setup": "optional setup node, optionally set up before"}, 900, 8, ["w_interleaved"], SCHED_FUNCS))
         if not q:
             parts.append(Part("concurrent-awaits-3", P(run_threads, TCfg(mode="awaits", threads=3)), {"awaits": 3, "N": 3}, 2400, 9, ["w_interleaved"], SCHED_FUNCS))
+    if not q and pid in LARGER:
+        # beyond the exhaustive shape bound: fixed larger shapes, every attribute / schedule still solver-chosen
+        kw5, kw6 = LARGER[pid]
+        mk("whole-run-N5-fixed-shapes", Cfg(N=5, fixed_shapes=SHAPES_N5, monitors=mons, **kw5), ["w_returned", "w_parallel"], 2400, 9)
+        mk("whole-run-N6-fixed-shapes", Cfg(N=6, fixed_shapes=SHAPES_N6, monitors=mons, **kw6), ["w_returned", "w_parallel"], 2400, 9)
     return parts
 
+
+LARGER = {
+    "C02": (dict(resources="ta", max_async=1), dict(resources="ta", max_async=1)),
+    "C03": (dict(resources="tm", selection=True, sym_seq=False), dict(resources="tm", selection=True, sym_seq=False)),
+    "C04": (dict(resources="tma", max_async=1), dict(resources="tma", max_async=1)),
+    "C05": (dict(resources="tm"), dict(resources="tm")),
+    "C06": (dict(resources="t", sym_prio=True, sym_seq=False), dict(resources="tm", sym_prio=True, sym_seq=False)),
+    "C08": (dict(resources="t", sym_prio=True), dict(resources="t", sym_prio=True)),
+    "C09": (dict(resources="ta", max_async=1, faults=1), dict(resources="ta", max_async=1, faults=1)),
+    "C14": (dict(resources="tm", faults=2, sym_seq=False), dict(resources="tm", faults=2, sym_seq=False)),
+    "C17": (dict(resources="ta", max_async=2, flavours="sa"), dict(resources="ta", max_async=1, flavours="sa")),
+}
+
+
+# larger fixed shapes (indices of the dependencies of node i): reconverging triangle next to two independent nodes, diamond
+# with a tail, fan-out, fan-in, two chains that join
+SHAPES_N5 = (((), (), (), (2,), (2, 3)), ((), (0,), (0,), (1, 2), (3,)), ((), (0,), (0,), (0,), (0,)), ((), (), (), (), (0, 1, 2, 3)),
+             ((), (0,), (), (2,), (1, 3)))
+# two diamonds in a row; a wide diamond; three roots feeding two joins
+SHAPES_N6 = (((), (0,), (0,), (1, 2), (3,), (3,)), ((), (0,), (0,), (0,), (1, 2, 3), (4,)), ((), (), (), (0, 1), (1, 2), (3, 4)))
 
 GRAPH_FUNCS = [
     "tawazi._dag.digraph.DiGraphEx.from_exec_nodes", "tawazi._dag.digraph.DiGraphEx.assign_compound_priority",
